@@ -20,7 +20,8 @@ def run(env, rep):
         "splitting loop of serialize is a counted loop whose stride (the chunk size) is >= 1 under that invariant, so it "
         "terminates; R3: the payload-length limit (<= 16 777 215) holds at every call that emits the length; R4: no public "
         "function of the API types has an undischarged panic site (C03 R1 with the whole public API as entry set); R6: an accepted chunk size takes effect only after it was announced under the old "
-        "size (C07 R5) - otherwise small sizes are accepted but not honoured.  Not decided: "
+        "size (C07 R5) - otherwise small sizes are accepted but not honoured; R7 (= C04 R1-R2): AMF0 strings and property names whose byte length does not fit the u16 length field are refused, "
+        "not truncated (every narrowing cast in the encoder has its source inside the target type), and the reserved name length 0 is not emitted.  Not decided: "
         "that every accepted value yields a working codec or session.")
     rep.assumptions = ["fields are only written by the crate that declares them (privacy is enforced by rustc)"]
     # ------------------------------------------------------------------ R1
@@ -122,3 +123,7 @@ def run(env, rep):
     from . import C07
     if wants(rep, "C19.R6"):
         C07.run(env, PrefixReport(rep, "C07.", "C19.R6.", only=("C07.R5",)))
+    # ------------------------------------------------------------------ R7: AMF0 length limits are refused, not truncated
+    if wants(rep, "C19.R7"):
+        from . import C04
+        C04.run(env, PrefixReport(rep, "C04.", "C19.R7.", only=("C04.R1", "C04.R2")))
